@@ -41,6 +41,13 @@ units of any width) decodes to the string it was written from -/
 theorem token_escaped_string (w : Nat) (s : List Nat) : StrSpec (jsonDeps w) (escapeJson s) s :=
   strSpec_escaped w s
 
+/-- every RFC 8259 string body (plain units of any width, the eight short escapes, `\\uXXXX` in
+either hex case, surrogate pairs) decodes to the concatenation of what its tokens denote; C20's
+`utf8_decode_encode` / `utf16_decode_encode` / `surrogate_pair` say what those are -/
+theorem token_string_body (w : Nat) (ts : List Qentem.Unicode.Tok) (hok : ∀ t ∈ ts, t.ok = true) :
+    StrSpec (jsonDeps w) (ts.flatMap Qentem.Unicode.Tok.src) (ts.flatMap (Qentem.Unicode.Tok.out w)) :=
+  strSpec_tokens w ts hok
+
 /-- Non-vacuity with real tokens: `{"a\n":[-12, 0], "":7}` with whitespace is well-formed for the
 linked sub-routines, so `parse_print_concrete` applies to it. -/
 example : WF (jsonDeps 1) (.obj [32]
